@@ -75,6 +75,7 @@ type Engine struct {
 	events      []Event
 	notes       map[string]bool
 	nchan       int
+	lastPanicPos string
 	narr        int
 
 	// threads
@@ -145,6 +146,7 @@ type PathResult struct {
 	VarOrder    []string
 	Bounds      map[string]int64
 	Sched       []int
+	PanicPos    string
 }
 
 // runPath executes harness fn once, following prefix.
@@ -227,6 +229,7 @@ func (w *Worker) runPath(harness *ssa.Function, prefix []Decision) (res PathResu
 			case targetPanic:
 				res.Outcome = "panic"
 				res.Detail = describePanic(r.v)
+				res.PanicPos = e.lastPanicPos
 			default:
 				res.Outcome = "inconclusive"
 				res.Detail = fmt.Sprintf("engine failure: %v\n%s", r, debug.Stack())
@@ -267,7 +270,7 @@ func (w *Worker) runPath(harness *ssa.Function, prefix []Decision) (res PathResu
 		}
 	}
 	if res.Outcome == "panic" || res.Outcome == "deadlock" {
-		path.addViolation(res.Outcome, res.Detail, "", res.Model)
+		path.addViolation(res.Outcome, res.Detail, res.PanicPos, res.Model)
 		path.violations[len(path.violations)-1].Sched = e.sched.points
 	}
 	finish()
